@@ -13,9 +13,9 @@ import (
 // L (jitter-buffer structure, C18) — DESIGN.md §3 I, J, L.
 
 func init() {
-	registerEngine("I", []string{"I1", "I2"}, runEngineI)
+	registerEngine("I", []string{"I1", "I2", "I3"}, runEngineI)
 	registerEngine("J", []string{"J1", "J2"}, runEngineJ)
-	registerEngine("L", []string{"L1", "L2", "L3", "L4"}, runEngineL)
+	registerEngine("L", []string{"L1", "L2", "L3", "L4", "L5"}, runEngineL)
 }
 
 // ---- I ------------------------------------------------------------------------------------------------------------
@@ -204,10 +204,64 @@ func runEngineI(p *Prog, o *obls) {
 		} else {
 			o.ok("I2", key, pos, "at most one allocation on every path, dominating SetExtension")
 		}
+		// I3: the Bind method hands its writer back unwrapped only when the extension was not negotiated. Every return
+		// of the writer parameter itself is control dependent on nothing but tests of the negotiated id against 0.
+		if bind := c.Owner; bind != nil && c.nextSource() != nil {
+			var p3 []string
+			nPass := 0
+			pdom := postDominators(bind)
+			for _, b := range bind.Blocks {
+				ret, ok := b.Instrs[len(b.Instrs)-1].(*ssa.Return)
+				if !ok || len(ret.Results) != 1 || p.origin(ret.Results[0]) != ssa.Value(c.nextSource()) {
+					continue
+				}
+				nPass++
+				for cb := range transitiveControlDeps(bind, pdom, b) {
+					cnd := ifCond(cb)
+					if cnd == nil {
+						continue
+					}
+					if !i3NotNegotiatedTest(p, cnd, bind) {
+						p3 = append(p3, fmt.Sprintf("the writer is handed back unwrapped at %s under the condition at %s, which is not the test that the extension was not negotiated (id == 0): a stream that negotiated the extension can leave without it", p.instrPos(ret), p.instrPosV(cnd)))
+					}
+				}
+			}
+			if len(p3) > 0 {
+				o.bad("I3", key, pos, strings.Join(dedupe(p3), "; "))
+			} else {
+				o.ok("I3", key, pos, fmt.Sprintf("%d pass-through return(s) of the Bind method, each only under the not-negotiated test", nPass))
+			}
+		}
 	}
 	if n == 0 {
 		o.undecided("I1", "no-closure", "-", "anchor unresolved: no writer closure sets a header extension")
 	}
+}
+
+// i3NotNegotiatedTest: cond compares the negotiated extension id with the constant 0 (either polarity), or is part of
+// the search for it (a comparison of a URI with the transport-wide-CC constant, the range over the extension list).
+func i3NotNegotiatedTest(p *Prog, cond ssa.Value, bind *ssa.Function) bool {
+	bo, ok := p.origin(cond).(*ssa.BinOp)
+	if !ok {
+		return false
+	}
+	if bo.Op == token.EQL || bo.Op == token.NEQ {
+		for _, pair := range [][2]ssa.Value{{bo.X, bo.Y}, {bo.Y, bo.X}} {
+			if isConstInt(pair[1], 0) && twccIDValue(p, pair[0], bind, twccIsIDField, twccUsesURI) {
+				return true
+			}
+			if c, ok := pair[1].(*ssa.Const); ok && c.Value != nil && strings.Contains(c.Value.ExactString(), "transport-wide-cc-extensions") {
+				return true
+			}
+		}
+	}
+	// the loop condition of the search over info.RTPHeaderExtensions
+	if bo.Op == token.LSS {
+		if c, ok := p.origin(bo.Y).(*ssa.Call); ok && builtinName(&c.Call) == "len" {
+			return true
+		}
+	}
+	return false
 }
 
 // ---- J ------------------------------------------------------------------------------------------------------------
@@ -471,6 +525,7 @@ var clearSpecs = []clearSpec{
 
 func runEngineL(p *Prog, o *obls) {
 	l4ListInsert(p, o)
+	l5ListUnlink(p, o)
 	for _, gs := range gateSpecs {
 		if p.Fixture != strings.HasPrefix(gs.typ, "fixtures/") {
 			continue
@@ -1220,6 +1275,173 @@ func l4ListInsert(p *Prog, o *obls) {
 			o.bad("L4", key, p.Pos(fn.Pos()), strings.Join(dedupe(bad), "; "))
 		} else {
 			o.ok("L4", key, p.Pos(fn.Pos()), fmt.Sprintf("%d insertion(s) of a new node between two neighbours that cannot be the same node", n))
+		}
+	}
+}
+
+// firstIterationReaches: with the loop variables of header h still holding the values they have on entry edge i (subst),
+// is there a path from h to target that does not come back to h and whose branch conditions, specialised to those
+// values and canonicalised, contradict neither each other nor what is known before the loop?
+func (p *Prog) firstIterationReaches(h *ssa.BasicBlock, i int, subst map[ssa.Value]ssa.Value, target *ssa.BasicBlock) bool {
+	var known []condFact
+	known = append(known, dominatingFacts(h.Preds[i])...)
+	if c := ifCond(h.Preds[i]); c != nil {
+		for si, sc := range h.Preds[i].Succs {
+			if sc == h {
+				known = append(known, condFact{c, si == 0})
+			}
+		}
+	}
+	p.keySubst = subst
+	defer func() { p.keySubst = nil }()
+	knownKeys := map[string]bool{}
+	for _, g := range known {
+		k, t := p.canonCondKey(g)
+		knownKeys[k] = t
+	}
+	if !reachableFrom(h)[target] && h != target {
+		return false
+	}
+	reached := false
+	var dfs func(b *ssa.BasicBlock, facts map[string]bool, onPath map[*ssa.BasicBlock]bool, depth int)
+	dfs = func(b *ssa.BasicBlock, facts map[string]bool, onPath map[*ssa.BasicBlock]bool, depth int) {
+		if reached || depth > 40 {
+			return
+		}
+		if b == target {
+			reached = true
+			return
+		}
+		c := ifCond(b)
+		for si, sc := range b.Succs {
+			if sc == h || onPath[sc] {
+				continue
+			}
+			nf := facts
+			if c != nil {
+				k, t := p.canonCondKey(condFact{c, si == 0})
+				if old, ok := facts[k]; ok && old != t {
+					continue
+				}
+				nf = map[string]bool{}
+				for kk, vv := range facts {
+					nf[kk] = vv
+				}
+				nf[k] = t
+			}
+			onPath[sc] = true
+			dfs(sc, nf, onPath, depth+1)
+			delete(onPath, sc)
+		}
+	}
+	dfs(h, knownKeys, map[*ssa.BasicBlock]bool{h: true}, 0)
+	return reached
+}
+
+// l5ListUnlink (rule L5): a node is unlinked through its true predecessor. For every store `A.f = B.f` on a
+// self-referential struct (f a pointer to the struct's own type: prev.next = pos.next) where A and B are the trailing
+// and the current pointer of one loop — on every back edge A takes B's value and B advances along f, so A.f == B from
+// the second iteration on — the first iteration must be safe too: either B starts as A.f, or the unlink cannot be
+// reached while the loop variables still hold their initial values (its guard, specialised to them, contradicts a test
+// that failed before the loop: the head was compared first). Otherwise the node is "removed" by re-linking some other
+// node: it stays in the list, emptied, and is found again. Unlinking through the node's own back pointer
+// (B.prev.f = B.f) rests on the consistency of the back pointers, a heap invariant that is noted and not decided.
+func l5ListUnlink(p *Prog, o *obls) {
+	selfField := func(t types.Type) map[int]bool {
+		n := namedOf(t)
+		if n == nil {
+			return nil
+		}
+		st, ok := n.Underlying().(*types.Struct)
+		if !ok {
+			return nil
+		}
+		out := map[int]bool{}
+		for i := 0; i < st.NumFields(); i++ {
+			if pt, ok := st.Field(i).Type().(*types.Pointer); ok && types.Identical(pt.Elem(), n) {
+				out[i] = true
+			}
+		}
+		return out
+	}
+	for _, fn := range p.Funcs {
+		n := 0
+		var bad, notes []string
+		instrsOf(fn, func(in ssa.Instruction) {
+			st, ok := in.(*ssa.Store)
+			if !ok {
+				return
+			}
+			fa, ok := st.Addr.(*ssa.FieldAddr)
+			if !ok || !selfField(fa.X.Type())[fa.Field] {
+				return
+			}
+			ld, ok := p.origin(st.Val).(*ssa.UnOp)
+			if !ok || ld.Op != token.MUL {
+				return
+			}
+			fb, ok := ld.X.(*ssa.FieldAddr)
+			if !ok || fb.Field != fa.Field || !types.Identical(fb.X.Type(), fa.X.Type()) {
+				return
+			}
+			A, B := p.origin(fa.X), p.origin(fb.X)
+			if A == B {
+				return
+			}
+			// through the node's own back pointer
+			if u, ok := A.(*ssa.UnOp); ok && u.Op == token.MUL {
+				if fp, ok := u.X.(*ssa.FieldAddr); ok && p.origin(fp.X) == B && selfField(fp.X.Type())[fp.Field] {
+					n++
+					notes = append(notes, fmt.Sprintf("the unlink at %s goes through the node's own back pointer: rests on the back pointers being consistent (heap invariant, not decided)", p.instrPos(st)))
+					return
+				}
+			}
+			pa, okA := A.(*ssa.Phi)
+			pb, okB := B.(*ssa.Phi)
+			if !okA || !okB || pa.Block() != pb.Block() {
+				return
+			}
+			n++
+			h := pa.Block()
+			fname := "?"
+			if fv := fieldOfAddr(fa); fv != nil {
+				fname = fv.Name()
+			}
+			for i := range pa.Edges {
+				ea, eb := pa.Edges[i], pb.Edges[i]
+				back := h.Dominates(h.Preds[i])
+				if back {
+					adv := false
+					if u, ok := p.origin(eb).(*ssa.UnOp); ok && u.Op == token.MUL {
+						if fx, ok := u.X.(*ssa.FieldAddr); ok && fx.Field == fa.Field && p.origin(fx.X) == ssa.Value(pb) {
+							adv = true
+						}
+					}
+					if p.origin(ea) != ssa.Value(pb) || !adv {
+						notes = append(notes, fmt.Sprintf("the loop at %s does not advance the pair as (trailing := current; current := current.%s): not decided", p.instrPosV(pa), fname))
+					}
+					continue
+				}
+				// entry edge: current starts as trailing.f ?
+				if p.pureKey(eb) == "*("+p.pureKey(ea)+"."+fname+")" {
+					continue
+				}
+				if p.firstIterationReaches(h, i, map[ssa.Value]ssa.Value{pa: ea, pb: eb}, st.Block()) {
+					bad = append(bad, fmt.Sprintf("the unlink %s.%s = %s.%s at %s can run in the first iteration, when %s is %s and %s is %s — not its predecessor: another node is re-linked, the matched node stays in the list with its packet taken out", pa.Comment, fname, pb.Comment, fname, p.instrPos(st), pa.Comment, shortExpr(p, ea), pb.Comment, shortExpr(p, eb)))
+				}
+			}
+		})
+		if n == 0 {
+			continue
+		}
+		key := funcKey(fn) + ":unlink"
+		switch {
+		case len(bad) > 0:
+			o.bad("L5", key, p.Pos(fn.Pos()), strings.Join(dedupe(bad), "; "))
+		case len(notes) > 0:
+			o.note("L5", key, p.Pos(fn.Pos()), strings.Join(dedupe(notes), "; "))
+		default:
+			o.ok("L5", key, p.Pos(fn.Pos()), fmt.Sprintf("%d unlink(s) through a trailing pointer that is the current node's predecessor in every iteration, the first included", n))
 		}
 	}
 }
